@@ -202,8 +202,14 @@ def run_generated(ctx, drv, treq, count, rng):
                                   replay_obj(c, 'span'), signature={'kind': 'span'})
             why = evaluate(c, r)
             if why:
-                small, w2 = shrink(drv, treq, c, why)
-                ctx.violation(w2, replay_obj(small, w2), signature=signature(small, w2))
+                sig = signature(c, why)
+                key = core.chash(sig)
+                if key in ctx._seen_viol:          # already reported in this shape: count it, do not shrink again
+                    ctx.violation(why, replay_obj(c, why), signature=sig)
+                else:
+                    small, w2 = shrink(drv, treq, c, why)
+                    ctx.violation(w2, replay_obj(small, w2), signature=signature(small, w2))
+                    ctx._seen_viol.add(key)
 
 
 def run_loops(ctx, drv, treq, rng):
